@@ -58,6 +58,12 @@ func run6(f []string) (string, bool) {
 		r := otp.MustRawSuite(string(unhx(f[1])))
 		r.SuiteConfig = parseSuite(f[3])
 		return strOrErr(otp.GenerateOCRA(string(unhx(f[2])), r, parseInput(f[4]))), true
+	case "gocra_nil":
+		var none otp.Suite
+		return strOrErr(otp.GenerateOCRA(string(unhx(f[1])), none, parseInput(f[2]))), true
+	case "vocra_nil":
+		var none otp.Suite
+		return verdict(otp.ValidateOCRA(string(unhx(f[1])), string(unhx(f[2])), none, parseInput(f[3]))), true
 	case "vocra_mut":
 		r := otp.MustRawSuite(string(unhx(f[1])))
 		r.SuiteConfig = parseSuite(f[4])
